@@ -19,6 +19,10 @@ def run(chk: Check) -> None:
     dom_allowed_check(chk)
     atom_terminal_guard(chk)
     terminal_hooks_cannot_fail_on_futures(chk)
+    # closing the process is part of the terminal transition: what a cleanup raises must not escape it, else the transition "fails" and FINISHED / KILLED is
+    # left for EXCEPTED through the bypass (obligations shared with C02)
+    from .c02 import close_once
+    close_once(chk)
 
 
 def terminal_hooks_cannot_fail_on_futures(chk: Check) -> None:
@@ -103,6 +107,8 @@ def tab_lifecycle(chk: Check) -> None:
     chk.ob('TAB-lifecycle', prog.func('processes.Process.get_state_classes'), base_entries == set(common.STATE_MEMBERS),
            f'state map covers {sorted(base_entries)}', kind='state-map-complete')
 
+    from .common import state_tables_built_per_class
+    state_tables_built_per_class(chk, 'TAB-lifecycle')
     # initial state: get_states() puts the CREATED class first; create_initial_state builds CREATED
     gs = prog.func('processes.Process.get_states')
     rets = [s for s in ast.walk(gs.node) if isinstance(s, ast.Return)]
